@@ -13,7 +13,13 @@ unshimmed pool with real threads under a watchdog (ASan; TSan in the thorough ti
 block processor driven with a failing compressor; and (h_bpfail.c) the ASan+UBSan block processor on
 the controlled pool with a compressor failing at its k-th call, for file lists reaching every submit
 site x every k x schedules that decide who sees the failure first (submit / dequeue / get_status):
-every call returns, the failure is reported, no block is owned twice, sanitizers and LSan silent."""
+every call returns, the failure is reported, no block is owned twice, sanitizers and LSan silent.
+Reduction argument checked, not assumed (session 3, seeded change C09-6): the scheduler shim's lock-discipline
+oracle (every change of the pool's shared state, every signal/broadcast happens with pool->mtx held; the
+submitter-only lists change in thread 0 only) runs in every execution (`tie:lock-discipline`), the DFS and the
+random schedules additionally pre-empt threads at the entry of cond_wait (mutex held, not yet a waiter), at the
+entry of broadcast/signal and right after unlock (bounded number per execution; oracles only), and a TSan build
+of the real-thread harness runs a few tiny scenarios in the quick tier as well."""
 import hashlib
 import json
 import os
@@ -106,6 +112,18 @@ def gen_shim_cases(ctx):
             cases.append("c%d 3 %s %s dfs 2 1 40000 1" % (cid, prog, fails))
             cid += 1
         nrand = 3000
+    # fine pre-emptions (entry of cond_wait with the mutex held / entry of broadcast / after unlock): complete
+    # DFS with one fine pre-emption per execution (two in the thorough tier) for the small configurations.  These
+    # executions have no counterpart at the model's step granularity: oracles + lock discipline only.
+    fine_progs = ["G"] + programs(3 if thorough else 2)
+    for nw in (1, 2, 3):
+        for prog in fine_progs:
+            if nw == 3 and prog.count("S") > (2 if thorough else 1):
+                continue
+            for fails in fail_sets(prog):
+                cases.append("f%d %d %s %s dfs 99 99 %d 1 %d" % (cid, nw, prog, fails, 3000000 if thorough else 400000,
+                                                                 2 if thorough and nw < 3 else 1))
+                cid += 1
     # random schedules (3 workers, 5 items), no state cache
     per = 250
     for i in range(nrand // per):
@@ -116,6 +134,28 @@ def gen_shim_cases(ctx):
         cases.append("c%d %d %s %s rand %d %d %d %d" % (cid, rnd.choice([2, 3, 3, 4]), prog, fails,
                                                         rnd.getrandbits(40), per, rnd.choice([0, 50, 150]), 3))
         cid += 1
+    # the same with up to 3 fine pre-emptions per execution
+    for i in range(max(4, nrand // per // 3)):
+        prog = rnd.choice(big + programs(3))
+        k = prog.count("S")
+        fails = rnd.choice(["-", "-", "%d:%d" % (rnd.randrange(k), rnd.randint(1, 9))])
+        cases.append("f%d %d %s %s rand %d %d %d %d %d %d" % (cid, rnd.choice([2, 3, 3, 4]), prog, fails,
+                                                              rnd.getrandbits(40), per, rnd.choice([0, 50]), 2,
+                                                              rnd.choice([100, 200, 300]), 3))
+        cid += 1
+    return cases
+
+
+def gen_tsan_quick_cases(ctx):
+    """tiny real-thread scenarios for the TSan build (a data race is reported as soon as both accesses have
+    executed without a happens-before edge: no timing luck needed)"""
+    cases = []
+    i = 0
+    for nw in (1, 2, 3):
+        for prog, fails in (("X", "-"), ("GX", "-"), ("SDX", "-"), ("SSDDGX", "-"), ("SSDX", "-"), ("SSDDGX", "0:5"),
+                            ("DSSGDDSX", "1:3"), ("SGDGX", "0:5"), ("SSGDGDX", "1:3"), ("SGSGDDGX", "0:7")):
+            cases.append("R q%d %d %s %s %d 0" % (i, nw, prog, fails, ctx.seed * 131 + i))
+            i += 1
     return cases
 
 
@@ -374,16 +414,28 @@ def run_proc(cmd, data, timeout, env=None):
 
 
 def parse_E(line):
-    """E <cid> <nw> <prog> <fails> | <sched> | <verdict> <hash>"""
+    """E|P <cid> <nw> <prog> <fails> | <sched> | <verdict> <hash>   (P: schedule with fine pre-emptions)"""
     parts = [x.strip() for x in line.split("|")]
-    if len(parts) < 3 or not parts[0].startswith("E "):
+    if len(parts) < 3 or parts[0][:2] not in ("E ", "P "):
         return None
     head = parts[0].split()
     tail = parts[2].split()
     if len(head) != 5 or len(tail) != 2:
         return None
-    return dict(cid=head[1], nw=int(head[2]), prog=head[3], fails=head[4], sched=parts[1],
-                verdict=tail[0], hash=tail[1])
+    e = dict(cid=head[1], nw=int(head[2]), prog=head[3], fails=head[4], sched=parts[1],
+             verdict=tail[0], hash=tail[1])
+    if head[0] == "P":
+        e["fine"] = True
+    return e
+
+
+def parse_L(line):
+    """L <cid> <nw> <prog> <fails> | <sched> | <what>   (lock discipline violated in this execution)"""
+    parts = [x.strip() for x in line.split("|")]
+    head = parts[0].split()
+    if len(parts) < 3 or len(head) != 5:
+        return None
+    return dict(cid=head[1], nw=int(head[2]), prog=head[3], fails=head[4], sched=parts[1], what=parts[2])
 
 
 def classify(e):
@@ -409,6 +461,8 @@ def classify(e):
 def verbose_trace(exe, e, extra=()):
     line = "E %s %d %s %s | %s | x 0\n" % (e["cid"], e["nw"], e["prog"], e["fails"], e["sched"])
     if exe.endswith("driver"):
+        if e.get("fine"):
+            return ["(a schedule with fine pre-emptions has no counterpart at the model's step granularity)"]
         rc, out, err = run_proc([exe, "-v"] + list(extra), line, 60)
     else:
         rc, out, err = run_proc([exe, "-v"], "%s %d %s %s run %s\n" % (e["cid"], e["nw"], e["prog"], e["fails"], e["sched"]), 60)
@@ -438,7 +492,7 @@ def build_all(ctx):
                                          os.path.join(HERE, "shim_sched.c")], "h_bpfail_c09",
                                  extra=["-I" + HERE, "-DSHIM_HDR_HASH=0x" + hh[:8]])
     h_tsan = None
-    if ctx.tier == "thorough":
+    if True:    # quick tier too (a handful of tiny scenarios); the binary is cached in the build directory
         tinfo = dict(info)
         tinfo["cflags"] = ["-O1", "-g", "-w", "-pthread", "-fsanitize=thread"]
         try:
@@ -446,6 +500,12 @@ def build_all(ctx):
                                        link_lib=False, libs=["-lpthread"])
         except B.BuildError as ex:
             ctx.notes.append("TSan build failed: %s" % str(ex)[-300:])
+        if h_tsan:
+            # a TSan binary that cannot even start (address-space layout of the host) must not count as a finding
+            rc0, _o, e0 = run_proc([h_tsan], "", 60, dict(os.environ, TSAN_OPTIONS="halt_on_error=1 exitcode=66"))
+            if rc0 != 0:
+                ctx.notes.append("TSan binary does not run here (rc=%d %s): TSan leg skipped" % (rc0, e0[-200:]))
+                h_tsan = None
     drv = core.build_model_driver("C09", "ExtractC09.v", os.path.join(HERE, "driver.ml"))
     return dict(pool=h_pool, serial=h_serial, real=h_real, blk=h_blk, blkshim=h_blkshim, tsan=h_tsan, drv=drv,
                 bpfail=h_bpfail)
@@ -462,19 +522,31 @@ def shim_tie(ctx, ex, cases, timeout):
         rc, out, err = run_proc([ex["pool"]], "\n".join(part) + "\n", timeout)
         elines = [l for l in out.split("\n") if l.startswith("E ")]
         nlines = [l for l in out.split("\n") if l.startswith("N ")]
+        plines = [l for l in out.split("\n") if l.startswith("P ")]
+        llines = [l for l in out.split("\n") if l.startswith("L ")]
         rc2, mout, merr = run_proc([ex["drv"]], "\n".join(elines) + "\n", timeout)
         mlines = [l for l in mout.split("\n") if l.startswith("E ")]
-        return rc, err, elines, nlines, rc2, merr, mlines
+        return rc, err, elines, nlines, rc2, merr, mlines, plines, llines
 
     with ThreadPoolExecutor(max_workers=NPROC) as tp:
         res = list(tp.map(one, parts))
-    stats = dict(execs=0, states=0, truncated=0, agree=0)
+    stats = dict(execs=0, states=0, truncated=0, agree=0, fine_execs=0, fine_states=0, discipline=[], discipline_n=0)
     impl_bad = []
     tie_bad = []
     crashed = []
     samples = []
-    for part, (rc, err, elines, nlines, rc2, merr, mlines) in zip(parts, res):
-        if rc != 0 and not any("| CRASH:" in l for l in elines[-1:]):
+    for part, (rc, err, elines, nlines, rc2, merr, mlines, plines, llines) in zip(parts, res):
+        # executions with fine pre-emptions: no model counterpart, judged by the harness's oracles
+        stats["fine_execs"] += len(plines)
+        for l in plines:
+            e = parse_E(l)
+            if e is not None and e["verdict"] not in ("OK", "STOPPED"):
+                impl_bad.append(e)
+        for l in llines:
+            d = parse_L(l)
+            if d is not None:
+                stats["discipline"].append(d)
+        if rc != 0 and not any("| CRASH:" in l for l in (elines[-1:] + plines[-1:])):
             crashed.append((rc, err[-1500:], part[:3]))
         if rc2 != 0:
             crashed.append((rc2, "model driver: " + merr[-1500:], part[:3]))
@@ -482,9 +554,15 @@ def shim_tie(ctx, ex, cases, timeout):
             m = re.search(r"states=(\d+)", l)
             if m:
                 stats["states"] += int(m.group(1))
+            m = re.search(r"fine-states=(\d+)", l)
+            if m:
+                stats["fine_states"] += int(m.group(1))
+            m = re.search(r"discipline-violations=(\d+)", l)
+            if m:
+                stats["discipline_n"] += int(m.group(1))
             if "truncated" in l or "overflow" in l:
                 stats["truncated"] += 1
-        stats["execs"] += len(elines)
+        stats["execs"] += len(elines) + len(plines)
         for i, l in enumerate(elines):
             ml = mlines[i] if i < len(mlines) else ""
             e = parse_E(l)
@@ -507,8 +585,38 @@ def report_shim(ctx, ex, stats, impl_bad, tie_bad, crashed):
         ctx.violation("harness-crash", "pool harness / model driver died (rc=%s): %s" % (rc, err[-400:]),
                       dict(kind="shim", cases=part, stderr=err), no_input=True)
     seen = set()
+    # concrete failures first; among equal signatures prefer the shortest schedule
+    impl_bad = sorted(impl_bad, key=lambda e: (len(e["sched"].split(",")), e["nw"], len(e["prog"])))
+    disc = stats.get("discipline") or []
+    if disc:
+        d = sorted(disc, key=lambda x: (len(x["sched"].split(",")), x["nw"], len(x["prog"])))[0]
+        what = ("lock discipline of threadpool.c violated — the reduction argument under the Coq LTS (every access to "
+                "the pool's shared state, every cond_wait/signal/broadcast happens with pool->mtx held, so a critical "
+                "section is one atomic step: coq/C09/PoolDiscipline.v, sections_atomic) does not apply to this code: %s; "
+                "%d workers, program %s, failing items %s, schedule %s (%d executions with a violation)"
+                % (d["what"], d["nw"], d["prog"], d["fails"], d["sched"], stats.get("discipline_n", len(disc))))
+        de = dict(cid=d["cid"], nw=d["nw"], prog=d["prog"], fails=d["fails"], sched=d["sched"], verdict="x", hash="0")
+        if "f" in d["sched"]:
+            de["fine"] = True
+        if impl_bad:
+            e = impl_bad[0]
+            sig0, what0 = classify(e)
+            ctx.violation("tie:lock-discipline", what + "; a concrete consequence was found by the schedule search with "
+                          "fine pre-emption points: %s — %d workers, program %s, failing items %s, schedule %s"
+                          % (what0, e["nw"], e["prog"], e["fails"], e["sched"]),
+                          dict(kind="shim", case=e, discipline=d, impl_trace=verbose_trace(ex["pool"], e)[-40:]))
+        else:
+            ctx.violation("tie:lock-discipline", what + "; the property oracles (FIFO, exactly-once, context, failure "
+                          "report, deadlock) hold on the implementation for all explored executions incl. the fine "
+                          "pre-emption points", dict(kind="shim", case=de, discipline=d,
+                                                     correspondence="props/C09: shared state of threadpool.c only under "
+                                                     "pool->mtx (shim_sched guard) == atomic steps of PoolModel.step",
+                                                     impl_trace=verbose_trace(ex["pool"], de)[-40:]), no_input=True)
     for e in impl_bad:
         sig, what = classify(e)
+        if e.get("fine"):
+            what += " [schedule with fine pre-emption points: 'Nf' stops thread N at the entry of cond_wait (mutex " \
+                    "still held, not yet a waiter), at the entry of a broadcast/signal or right after unlock]"
         if sig in seen:
             continue
         seen.add(sig)
@@ -612,6 +720,21 @@ def real_runs(ctx, exe, cases, tag, env):
             if sig not in seen:
                 seen.add(sig)
                 ctx.violation(sig, what, dict(kind=tag, case=f[0], output=l))
+        if tag == "tsan" and rc == 66 and "ThreadSanitizer" in err:
+            if "tsan:report" in seen:
+                continue
+            seen.add("tsan:report")
+            sm = re.search(r"SUMMARY: ThreadSanitizer: (.*)", err)
+            case = part[len(lines)] if len(lines) < len(part) else part[-1]
+            ctx.violation("tsan:" + (sm.group(1).split()[0] + "-" + sm.group(1).split()[1] if sm and len(sm.group(1).split()) > 1
+                                     else "report"),
+                          "ThreadSanitizer on the unshimmed pool with real threads: %s (case '%s'): an access to the pool's "
+                          "shared state is not ordered by pool->mtx — outside the domain of the Coq LTS (lock discipline)"
+                          % (sm.group(1)[:300] if sm else err[-300:], case),
+                          dict(kind="tsan", case=case, stderr=err[-6000:],
+                               correspondence="props/C09: shared state of threadpool.c only under pool->mtx == atomic "
+                               "steps of PoolModel.step"), no_input=True)
+            continue
         if rc not in (0, 3) and ("%s-crash" % tag) not in seen:
             seen.add("%s-crash" % tag)
             ctx.violation("%s-crash" % tag, "%s harness died rc=%d: %s" % (tag, rc, err[-600:]),
@@ -623,12 +746,16 @@ def run(ctx):
     ex = build_all(ctx)
     ctx.trusted += [
         "props/C09/shim_sched.{h,c}: cooperative scheduler standing in for pthreads (one thread runs from one "
-        "mutex/condvar/yield point to the next; sound for code that touches shared state only under its mutex)",
+        "mutex/condvar/yield point to the next; sound for code that touches shared state only under its mutex — "
+        "that discipline is now checked at run time: writes by snapshot comparison between the shim operations of a "
+        "thread, signals/broadcasts/waits directly; READS outside the mutex only by the TSan leg)",
         "props/C09/h_pool.c (prints events/abstract state; reads thread_pool_impl_t fields), driver.ml (replay glue)",
-        "reduction: thread-local code between critical sections is merged with the adjacent step",
+        "reduction: thread-local code between critical sections is merged with the adjacent step (Coq: "
+        "C09/PoolDiscipline.v sections_atomic / normalise_* for traces that keep the discipline)",
     ]
     ctx.assumptions += [
-        "memory-model effects below mutex granularity are outside the model (the code holds the mutex for every shared access)",
+        "memory-model effects below mutex granularity are outside the model (the code holds the mutex for every shared "
+        "access: checked by the shim's lock-discipline oracle and TSan, no longer assumed)",
         "callbacks terminate and touch only their item and their own context",
         "only one thread (the submitter) calls the pool API, as documented",
     ]
@@ -649,6 +776,9 @@ def run(ctx):
         elif kind in ("real", "blk", "blkshim") and r.get("case"):
             n, _ = real_runs(ctx, ex[kind], [r["case"]], kind, env_asan)
             ctx.coverage["evaluations"] = n
+        elif kind == "tsan" and r.get("case") and ex.get("tsan"):
+            n, _ = real_runs(ctx, ex["tsan"], [r["case"]], "tsan", dict(os.environ, TSAN_OPTIONS="halt_on_error=1 exitcode=66"))
+            ctx.coverage["evaluations"] = n
         elif kind == "bpfail" and r.get("case"):
             n, _h = bpfail_runs(ctx, ex["bpfail"], [r["case"]], env_lsan, verbose=True)
             ctx.coverage["evaluations"] = n
@@ -664,8 +794,13 @@ def run(ctx):
     # 1. tie on the cooperative scheduler (+ the harness's own property oracles)
     cases = gen_shim_cases(ctx)
     stats, impl_bad, tie_bad, crashed, samples = shim_tie(ctx, ex, cases, 1500 if ctx.tier == "thorough" else 170)
-    ctx.log("shim tie: %d cases, %d executions, %d states, %d differ, %d impl-level failures" %
-            (len(cases), stats["execs"], stats["states"], len(tie_bad), len(impl_bad)))
+    ctx.log("shim tie: %d cases, %d executions (%d with fine pre-emptions, %d states with a thread stopped at a fine "
+            "point), %d states, %d differ, %d impl-level failures, %d executions violating the lock discipline" %
+            (len(cases), stats["execs"], stats["fine_execs"], stats["fine_states"], stats["states"], len(tie_bad),
+             len(impl_bad), stats["discipline_n"]))
+    if stats["fine_execs"] < 1000 and not impl_bad and not crashed:
+        ctx.violation("machinery-fine-preemption-coverage", "only %d executions with fine pre-emption points explored"
+                      % stats["fine_execs"], dict(kind="machinery"), no_input=True)
     report_shim(ctx, ex, stats, impl_bad, tie_bad, crashed)
     if stats["truncated"]:
         ctx.notes.append("%d DFS cases hit their execution limit (exploration incomplete there)" % stats["truncated"])
@@ -680,8 +815,10 @@ def run(ctx):
     # 3. real threads
     rcases = gen_real_cases(ctx)
     nr, _ = real_runs(ctx, ex["real"], rcases, "real", env_asan)
+    nt = 0
     if ex.get("tsan"):
-        nt, _ = real_runs(ctx, ex["tsan"], rcases[: len(rcases) // 2], "tsan",
+        tcases = gen_tsan_quick_cases(ctx) + (rcases[: len(rcases) // 2] if ctx.tier == "thorough" else [])
+        nt, _ = real_runs(ctx, ex["tsan"], tcases, "tsan",
                           dict(os.environ, TSAN_OPTIONS="halt_on_error=1 exitcode=66"))
         nr += nt
     bcases = gen_blk_cases(ctx)
@@ -729,14 +866,22 @@ def run(ctx):
     ctx.coverage["traces_validated_against_impl"] = stats["agree"]
     ctx.coverage["exhaustive"] = False
     ctx.coverage["distribution"] = dict(shim_cases=len(cases), shim_executions=stats["execs"],
+                                        shim_executions_with_fine_preemptions=stats["fine_execs"],
+                                        states_with_a_thread_stopped_at_a_fine_point=stats["fine_states"],
+                                        lock_discipline_checked_in_every_shim_execution=True,
+                                        lock_discipline_violations=stats["discipline_n"], tsan_cases=nt,
                                         distinct_states=stats["states"], dfs_truncated=stats["truncated"],
                                         serial_cases=ns, real_thread_cases=nr, block_processor_cases=nb,
                                         failing_pool_runs=nf, failing_pool_first_seen=fhist)
     ctx.coverage["rule"] = (
         "shim: complete DFS (all interleavings incl. unbounded spurious wake-ups, state cache) of threadpool.c for "
         "1-2 workers x %d client programs with <=3 items x every failing position (and 3 workers, <=2 items); "
-        "%s; %d seeded random schedules of 2-4 workers / <=5 items; every execution replayed on the extracted model "
-        "(per-step event + abstract state + thread states compared by trace hash); distinct_nontrivial = distinct "
+        "%s; %d seeded random schedules of 2-4 workers / <=5 items; every execution without fine pre-emptions replayed "
+        "on the extracted model (per-step event + abstract state + thread states compared by trace hash); lock "
+        "discipline (shared pool state changes / signals only with pool->mtx held; submitter-only lists only in thread "
+        "0) checked by the shim between all shim operations of every execution; complete DFS with one fine pre-emption "
+        "(entry of cond_wait with the mutex held, entry of broadcast/signal, after unlock) for 1-3 workers x small "
+        "programs x every failing position, random schedules with <=3 fine pre-emptions; distinct_nontrivial = distinct "
         "abstract states reached by the DFS; serial pool: %d programs; real threads (ASan%s): %d programs incl. "
         "test_threadpool-style reverse completion; block processor with failing compressor: %d runs (of which %d: "
         "ASan+UBSan+LSan block processor on the controlled pool, %d file lists x every k (compressor fails at its k-th "
